@@ -63,27 +63,44 @@ def r1_r2_biharmonic(ctx):
         masks = tuple(e.data[1] for e in stores)
         fresh = ret[0] == "call" and callee(ret) in ("numpy.empty_like", "numpy.zeros_like", "numpy.empty", "numpy.zeros")
         ctx.check("R2", qn + "|result-buffer-fresh", True if fresh else None, "the result is a freshly allocated buffer", fn=qn)
-        comp_ok = len(masks) == 2 and (masks[1] == ("unop", "~", masks[0]) or masks[0] == ("unop", "~", masks[1]))
-        ctx.check("R2", qn + "|masks-complementary", True if comp_ok else (False if len(masks) == 2 and masks[0] == masks[1] else None),
-                  "the two stores use a mask and its complement, so every element is written exactly once",
-                  bad="both stores use the same mask: the other elements stay uninitialised", fn=qn)
+        NEGOP = {"<": ">=", "<=": ">", ">": "<=", ">=": "<"}
+
+        def mask_test(m):
+            """(operand, op, threshold) of a mask that is (the complement of) a comparison with a constant"""
+            neg = False
+            while m[0] == "unop" and m[1] in ("~", "not"):
+                m, neg = m[2], not neg
+            if m[0] == "cmp" and m[1] in NEGOP and is_const(m[3]) and isinstance(m[3][1], (int, float)):
+                return m[2], (NEGOP[m[1]] if neg else m[1]), float(m[3][1])
+            return None
+        tests = [mask_test(m) for m in masks]
+        comp_ok, gap = None, None
+        if len(masks) == 2 and (masks[1] == ("unop", "~", masks[0]) or masks[0] == ("unop", "~", masks[1])):
+            comp_ok = True
+        elif len(masks) == 2 and masks[0] == masks[1]:
+            comp_ok, gap = False, "both stores use the same mask: the other elements stay uninitialised"
+        elif len(masks) == 2 and all(tests) and tests[0][0] == tests[1][0] and tests[0][2] == tests[1][2]:
+            o1, o2 = tests[0][1], tests[1][1]
+            if o2 == NEGOP[o1]:
+                comp_ok = True
+            elif {o1, o2} == {"<", ">"}:
+                comp_ok, gap = False, "the masks are r < %g and r > %g: an element at distance exactly %g is written by neither store and keeps the buffer's initial value" % (tests[0][2], tests[0][2], tests[0][2])
+        ctx.check("R2", qn + "|masks-complementary", comp_ok,
+                  "the two stores use a mask and its complement, so every element is written exactly once", bad=gap or "", fn=qn)
         if len(stores) != 2:
             ctx.add("R1", qn + "|branches", "UNDECIDED", "expected two masked stores, found %d" % len(stores), fn=qn)
             continue
-        base_mask = next((m for m in masks if m[0] == "cmp"), None)
-        for e in stores:
+        for e, t in zip(stores, tests):
             m = e.data[1]
-            positive = m[0] == "cmp"
-            tag = "mask" if positive else "complement"
+            tag = ("low" if t[1] in ("<", "<=") else "high") if t is not None else ("mask" if m[0] == "cmp" else "complement")
             cmp_formula(ctx, "R1", "%s|branch|%s" % (qn, tag), e.data[2], want, b, qn, "branch value equals r^2 (ln r - 1)", masks=masks)
-            # definedness on the part of [0, 1e8] the branch covers
-            if base_mask is not None and base_mask[1] in ("<", "<=", ">", ">=") and is_const(base_mask[3]):
-                thr = float(base_mask[3][1])
-                below = base_mask[1] in ("<", "<=")
-                covers_low = below if positive else not below
+            # definedness on the part of [0, 1e8] the branch covers (each store judged on its OWN mask)
+            if t is not None:
+                operand, op_, thr = t
+                covers_low = op_ in ("<", "<=")
                 I = (0.0, thr) if covers_low else (thr, 1e8)
                 try:
-                    lo, hi = iv(e.data[2], base_mask[2], I, masks)
+                    lo, hi = iv(e.data[2], operand, I, masks)
                     ok, why = (abs(lo) < 1e300 and abs(hi) < 1e300), "range [%.3g, %.3g]" % (lo, hi)
                 except Bad as ex:
                     ok, why = False, str(ex)
